@@ -314,6 +314,15 @@ class Interp:
         if not isinstance(cont, (Arr, VecV)) or not cont.elems:
             return None
         el = cont.elems[off:]
+        if el and all(isinstance(e, Arr) and len(e.elems) == len(el[0].elems) for e in el):
+            # a table of fixed-size rows (e.g. [[u8; 4]; 256]): look every column up separately
+            cols = []
+            for j in range(len(el[0].elems)):
+                r = self.table_lookup(Arr([e.elems[j] for e in el]), iv, 0)
+                if r is None:
+                    return None
+                cols.append(r)
+            return Arr(cols)
         if not all(isinstance(e, Int) and e.is_conc() for e in el):
             return None
         bits = list(iv.getbits())
